@@ -375,7 +375,9 @@ def in_domain(T, req):
     toks = req.split()
     if not toks or toks[0] != "ts.seq":
         return False
-    cfgs = {l["config"] for l in T.tc["layouts"]}
+    # the combinations that implement a logical channel: layouts[] entries with frames (the entry of GSM_PCHAN_NONE has a
+    # period of 0 and no frame: configuring "nothing" is not a lookup the property speaks about)
+    cfgs = {l["config"] for l in T.tc["layouts"] if l["period"] > 0}
     for op in toks[1:]:
         p = op.split(",")
         try:
